@@ -4,7 +4,8 @@
 (*                                                                         *)
 (* The public headers of the tree under test are scanned into a sequence   *)
 (* of facts (file named by the environment variable FACTS), in file order: *)
-(*   once | include n | macro n body | undef n | enumerator n | typedef n  *)
+(*   once | include n | macro n body | undef n | use n | enumerator n      *)
+(*   | typedef n                                                           *)
 (*   | function n | tag n | pack_push | pack_pop | pack_set                *)
 (* The state of a translation unit is the set of headers already included  *)
 (* (all headers use #pragma once), the macro environment, the ordinary     *)
@@ -16,6 +17,8 @@
 (*   - a declaration's name is currently a macro   (the macro is expanded  *)
 (*     inside the declaration: another name is declared, or a clash)       *)
 (*   - an ordinary identifier / tag of another header is declared again    *)
+(*   - a declaration uses a name that some public header defines as a      *)
+(*     macro, at a point where it is not (or no longer: #undef) a macro    *)
 (*   - a header leaves the #pragma pack state changed (layout of every     *)
 (*     later structure changes)                                            *)
 (* TLC explores every order of Depth distinct top-level includes and the   *)
@@ -60,6 +63,9 @@ Process(s, fs) ==
                 IF f.name \in s.inc \/ f.name \notin Hdrs THEN s
                 ELSE Process([s EXCEPT !.inc = @ \cup {f.name}], FactsOf(f.name))
            [] f.kind = "macro"     -> Define(s, f)
+           [] f.kind = "use"       ->      \* a declaration relies on a macro: it must be one here
+                IF \E e \in s.env : e.name = f.name /\ e.kind = "macro" THEN s
+                ELSE [s EXCEPT !.bad = @ \cup {Conf("macro-use-undefined", f)}]
            [] f.kind = "undef"     -> [s EXCEPT !.env = { e \in @ : ~(e.name = f.name /\ e.kind = "macro") }]
            [] f.kind \in Ordinary \cup {"tag"} -> Declare(s, f)
            [] f.kind = "pack_push" -> [s EXCEPT !.pack = @ + 1]
